@@ -366,7 +366,7 @@ impl Sub for Synthetic {
         "StripedScores<f32|u8> with 16 or 32 columns built cell by cell (explicit / seeded incl. all-negative, few-valued / spikes incl. +-inf, duplicated maxima) x threshold (a cell value, between two values, below min, above max, arbitrary); generic, sse2, avx2, dispatch forced to each arm, StripedScores::{max,argmax,threshold} and Scores::{max,argmax,threshold} compared with a scan of all cells; sweep = one spike at every column x rows {1,2,3,33} x both dtypes x {all-negative, zero} base; non-trivial = rows >= 2 and (maximum outside row 0 / column 0, or every cell negative, or duplicated maximum)"
     }
     fn cases(&self, tier: Tier) -> u64 {
-        tier.pick(40_000, 2_000_000)
+        tier.pick(150_000, 5_000_000)
     }
     fn strategy(&self, tier: Tier) -> BoxedStrategy<SynCase> {
         syn_strategy(tier)
@@ -607,7 +607,7 @@ impl Sub for EndToEnd {
         "library-made scoring matrix (count -> freq -> log-odds, wildcard column -inf) x sequence, scored by generic / sse2 / avx2 / each dispatcher arm; every cell at position >= L-M+1 must be -inf and max / argmax / threshold(best) through each arm must designate the best valid position; non-trivial = at least one valid position, >= 2 rows and a negative finite best score"
     }
     fn cases(&self, tier: Tier) -> u64 {
-        tier.pick(20_000, 600_000)
+        tier.pick(40_000, 1_000_000)
     }
     fn strategy(&self, tier: Tier) -> BoxedStrategy<E2eCase> {
         abc_strategy()
